@@ -33,6 +33,7 @@ Definition acode (a : action) : Z * Z :=
   | ATPMLogAdd => (5, 0)
   | ATPMMeasure id _ => (6, id)
   | ACustom id _ _ _ => (7, id)
+  | ASetFlowFunc id _ => (8, id)
   end.
 
 Definition icode (i : icoord) : Z :=
